@@ -55,11 +55,26 @@ def generate(seed, tier):
         for f in frags:
             if f['defect'] in (None, 'r2unmapped', 'orphan_r1', 'qcfail'):
                 f['defect'] = 'single'
+    force_nr = False
+    if method != 'qflag' and w.random() < 0.25 and frags:
+        # a job whose LAST task writes nothing: the last small contig (header order) holds only rejected fragments
+        genome = genome + [[f'tail{len(genome)}', w.randint(300, 3000)]]
+        ci = len(genome) - 1
+        clen = genome[ci][1]
+        for k in range(w.randint(1, 3)):
+            o = dict(w.choice(frags))
+            o.update({'n': 1000 + len(frags), 'ctg': ci, 'L': min(o['L'], clen // 3), 'extra': None, 'clip': 0,
+                      'defect': w.choice(['qcfail', 'r1unmapped', 'nomotif'] if method == 'nla' else ['qcfail', 'r1unmapped'])})
+            o['site'] = w.randint(o['L'] + 8, clen - o['L'] - 8)
+            frags.append(o)
+        if not any(g[1] < tw.SMALL and any(f['ctg'] == i for f in frags) for i, g in enumerate(genome[:-1])):
+            genome[0][1] = min(genome[0][1], 99000) if all(f['site'] + f['L'] + 50 < 99000 for f in frags if f['ctg'] == 0) else genome[0][1]
+        force_nr = True
     params = {'method': method, 'encoded': w.random() < 0.7, 'lib': w.choice(['LIB', 'my-lib_1'])}
     s = st.schedule
     modes = [{'mp': False, 'name': 'single'},
              {'mp': True, 'name': 'multi', 'width': s.randint(1, 4), 'schedule': {'policy': 'seeded'}, 'seed': seed}]
-    if w.random() < 0.5 and method != 'qflag':   # qflag writes all reads by design (--no_rejects is overridden)
+    if (w.random() < 0.5 or force_nr) and method != 'qflag':   # qflag writes all reads by design (--no_rejects is overridden)
         modes += [dict(m, no_rejects=True, name=m['name'] + '/no_rejects') for m in modes]
     return {'params': params, 'genome': genome, 'workload': frags, 'modes': modes}
 
